@@ -1,4 +1,6 @@
 import Bec2Verif.Lemmas.Codec
+import Bec2Verif.Lemmas.Sqrt
+import Bec2Verif.Lemmas.P256Curve
 /-!
 # C19 — key and point encodings
 
@@ -12,32 +14,32 @@ namespace Bec2Verif.C19
 open Bec2Verif Der PointCodec
 
 /-- lengths: `read_length ∘ encode_length = id`, followed by anything -/
-theorem length_roundtrip (l : Nat) (rest : Bytes) (h : Encodable l) :
+theorem length_roundtrip (l : Nat) (rest : Bytes) (h : Der.Encodable l) :
     readLength (encodeLength l ++ rest) = .ok (l, (encodeLength l).length) := readLength_encodeLength l rest h
 
 /-- INTEGER, for every natural number below 2^1000 -/
 theorem integer_roundtrip (r : Nat) (rest : Bytes) (h : (beBytes r).length + 1 < 128) :
     removeInteger (encodeInteger r ++ rest) = .ok (r, rest) := removeInteger_encode r rest h
 
-theorem octet_string_roundtrip (body rest : Bytes) (h : Encodable body.length) :
+theorem octet_string_roundtrip (body rest : Bytes) (h : Der.Encodable body.length) :
     removeOctetString (encodeOctetString body ++ rest) = .ok (body, rest) := removeOctetString_encode body rest h
 
-theorem sequence_roundtrip (pieces : List Bytes) (rest : Bytes) (h : Encodable pieces.flatten.length) :
+theorem sequence_roundtrip (pieces : List Bytes) (rest : Bytes) (h : Der.Encodable pieces.flatten.length) :
     removeSequence (encodeSequence pieces ++ rest) = .ok (pieces.flatten, rest) := removeSequence_encode pieces rest h
 
-theorem bitstring_roundtrip (body rest : Bytes) (h : Encodable (body.length + 1)) :
+theorem bitstring_roundtrip (body rest : Bytes) (h : Der.Encodable (body.length + 1)) :
     removeBitstring (encodeBitstring0 body ++ rest) 0 = .ok (body, rest) := removeBitstring_encode body rest h
 
-theorem constructed_roundtrip (tag : Nat) (htag : tag < 32) (value rest : Bytes) (h : Encodable value.length) :
+theorem constructed_roundtrip (tag : Nat) (htag : tag < 32) (value rest : Bytes) (h : Der.Encodable value.length) :
     removeConstructed (encodeConstructed tag value ++ rest) = .ok (tag, value, rest) :=
   removeConstructed_encode tag htag value rest h
 
 /-- a truncated length field is never readable, and every proper prefix of an encoded SEQUENCE - the outer layer of
 every key encoding - is rejected -/
-theorem truncated_length_rejected (L j : Nat) (h : Encodable L) (hj : j < (encodeLength L).length) :
+theorem truncated_length_rejected (L j : Nat) (h : Der.Encodable L) (hj : j < (encodeLength L).length) :
     ∃ e, readLength ((encodeLength L).take j) = .error e := readLength_prefix L j h hj
 
-theorem truncated_sequence_rejected (pieces : List Bytes) (k : Nat) (h : Encodable pieces.flatten.length)
+theorem truncated_sequence_rejected (pieces : List Bytes) (k : Nat) (h : Der.Encodable pieces.flatten.length)
     (hk : k < (encodeSequence pieces).length) : ∃ e, removeSequence ((encodeSequence pieces).take k) = .error e :=
   removeSequence_truncated pieces k h hk
 
@@ -46,6 +48,33 @@ theorem point_string_roundtrip (c : CurveParams) (enc : Enc) (henc : enc ≠ .co
     (hx : x < 256 ^ orderlen c.p) (hy : y < 256 ^ orderlen c.p) (validate : Bool) :
     ∃ s, toBytes c enc x y = .ok s ∧ fromBytes c s validate = .ok (x, y) :=
   fromBytes_toBytes c enc henc x y hx hy validate
+
+/-- **compressed point strings** decode to the point they encode, on every curve over a prime field with
+`p ≡ 3 (mod 4)` (NIST P-192/256/384/521, secp256k1, all brainpool curves): the modelled Jacobi test (binary algorithm with
+quadratic reciprocity) is Mathlib's Jacobi symbol and never runs out of its step budget, `pow` is modular exponentiation,
+the candidate `α^((p+1)/4)` is `±y` (Euler's criterion), and the parity byte selects `y`.  `(x, y)` is on the curve in
+the decoder's own terms; `0 < y` (a curve with a point `y = 0` is outside C17 anyway). -/
+theorem compressed_point_roundtrip {p : ℕ} [Fact p.Prime] (c : CurveParams) (hcp : c.p = p) (h34 : p % 4 = 3)
+    (hl : 2 ≤ orderlen c.p) (x y : Nat) (hx : x < 256 ^ orderlen c.p) (hy0 : 0 < y) (hy : y < p)
+    (hon : ((((x : ℤ) ^ 3 % (c.p : ℤ) + c.a * x + c.b).emod (c.p : ℤ)).toNat) = y * y % p) (validate : Bool) :
+    ∃ s, toBytes c .compressed x y = .ok s ∧ fromBytes c s validate = .ok (x, y) :=
+  fromBytes_compressed c hcp h34 hl x y hx hy0 hy hon validate
+
+/-- … in particular on NIST P-256 as found in the source, with nothing assumed about the curve -/
+theorem p256_compressed_point_roundtrip (x y : Nat) (hx : x < P256C.P) (hy0 : 0 < y) (hy : y < P256C.P)
+    (hon : ((((x : ℤ) ^ 3 % (P256C.P : ℤ) + Gen.NIST256p.a * x + Gen.NIST256p.b).emod (P256C.P : ℤ)).toNat) = y * y % P256C.P)
+    (validate : Bool) :
+    ∃ s, toBytes { p := P256C.P, a := Gen.NIST256p.a, b := Gen.NIST256p.b } .compressed x y = .ok s ∧
+      fromBytes { p := P256C.P, a := Gen.NIST256p.a, b := Gen.NIST256p.b } s validate = .ok (x, y) := by
+  have hol : orderlen P256C.P = 32 := by decide +kernel
+  exact compressed_point_roundtrip (p := P256C.P) { p := P256C.P, a := Gen.NIST256p.a, b := Gen.NIST256p.b } rfl
+    (by decide +kernel) (by show 2 ≤ orderlen P256C.P; rw [hol]; decide) x y
+    (by show x < 256 ^ orderlen P256C.P; rw [hol]; have : P256C.P < 256 ^ 32 := by decide +kernel
+        omega) hy0 hy hon validate
+
+/-- the Jacobi symbol routine of `numbertheory.py` is the Jacobi symbol -/
+theorem jacobi_is_jacobi_symbol (fuel a n : Nat) (j : Int) (h : jacobi fuel a n = some j) : j = jacobiSym a n :=
+  jacobi_sound fuel a n j h
 
 /-- the fixed 27-byte header of `bec2format/crypto.py` (regenerated from the source: `Gen.RAW_DER_HEADER`) is exactly
 what the library's DER encoder puts in front of ANY raw 64-byte P-256 key … -/
@@ -59,7 +88,7 @@ theorem p256_header_parses (raw : Bytes) (h : raw.length = 64) :
 /-- … and cutting `DER_HEADER_LEN` bytes off gives the raw key back -/
 theorem p256_raw_of_der (raw : Bytes) : (Gen.RAW_DER_HEADER ++ raw).drop Gen.DER_HEADER_LEN = raw := raw_of_der raw
 
-example : Encodable 300 := by show (beBytes 300).length < 128; decide
+example : Der.Encodable 300 := by show (beBytes 300).length < 128; decide
 example : (beBytes 115792089210356248762697446949407573529996955224135760342422259061068512044369).length + 1 < 128 := by
   decide +kernel
 
